@@ -65,10 +65,14 @@ type hmapClassifier struct {
 	fresh map[types.Object]ast.Expr // local var -> fresh entry expression
 	defPos map[types.Object]token.Pos
 	bodies []*ast.BlockStmt // the method body and the bodies of helpers inlined while enumerating it
+	p      *core.Program    // for resolving the hash helper (optional)
 }
 
+// hmapProg: the program under analysis (set by the rule entry points; one run analyses one program).
+var hmapProg *core.Program
+
 func newHmapClassifier(fi *core.FuncInfo) *hmapClassifier {
-	c := &hmapClassifier{fi: fi, info: fi.Pkg.TypesInfo, recv: recvName(fi), fresh: map[types.Object]ast.Expr{}, defPos: map[types.Object]token.Pos{}}
+	c := &hmapClassifier{p: hmapProg, fi: fi, info: fi.Pkg.TypesInfo, recv: recvName(fi), fresh: map[types.Object]ast.Expr{}, defPos: map[types.Object]token.Pos{}}
 	ast.Inspect(fi.Decl.Body, func(n ast.Node) bool {
 		if as, ok := n.(*ast.AssignStmt); ok && len(as.Lhs) == 1 && len(as.Rhs) == 1 {
 			if id, ok := as.Lhs[0].(*ast.Ident); ok {
@@ -243,6 +247,26 @@ func (c *hmapClassifier) classify(n ast.Node) []paths.Event {
 		if !ok {
 			return true
 		}
+		// order-list surgery done by a package-level function (the helpers do not use their receiver)
+		if fid, isId := call.Fun.(*ast.Ident); isId {
+			switch c.linkKind(fid) {
+			case "chain":
+				end := "?"
+				if len(call.Args) == 3 {
+					a, b := c.norm(call.Args[0]), c.norm(call.Args[1])
+					switch {
+					case a == "header" && b == "header.link_next":
+						end = "first"
+					case a == "header.link_prev" && b == "header":
+						end = "last"
+					}
+				}
+				out = append(out, paths.Event{Kind: "LINK", Arg: end, Pos: call.Pos()})
+			case "unchain":
+				out = append(out, paths.Event{Kind: "UNLINK", Pos: call.Pos()})
+			}
+			return true
+		}
 		sel, ok := call.Fun.(*ast.SelectorExpr)
 		if !ok {
 			return true
@@ -253,7 +277,11 @@ func (c *hmapClassifier) classify(n ast.Node) []paths.Event {
 			}
 			return true
 		}
-		switch sel.Sel.Name {
+		name := sel.Sel.Name
+		if k := c.linkKind(sel.Sel); k != "" {
+			name = k
+		}
+		switch name {
 		case "chain":
 			end := "?"
 			if len(call.Args) == 3 {
@@ -490,9 +518,11 @@ func (h *hmapType) enumerate(fi *core.FuncInfo, cl *hmapClassifier, mode string)
 		}
 		return cfi.Decl.Body
 	}
+	exp := newInliner(h.p, fi, func(fn *types.Func) bool { return true }) // only boolean-local expansion is used here
 	cfg := paths.Config{
 		Info:     info,
 		Inline:   inlineBody,
+		Expand:   exp.Expand,
 		MaxInline: 2,
 		Classify: cl.classify,
 		Cond:     cl.condEvent,
@@ -851,7 +881,23 @@ func hashExprKind(c *hmapClassifier, e ast.Expr) string {
 		}
 		if sel, ok := call.Fun.(*ast.SelectorExpr); ok {
 			if id, ok := ast.Unparen(sel.X).(*ast.Ident); ok && id.Name == c.recv && sel.Sel.Name == "hash" {
+				// the type's own hash(key) helper: what matters is what it computes, so that inlining the
+				// helper at its call sites (or keeping it in some and not in others) reads the same
+				if k := c.hashHelperKind(sel.Sel); k != "" {
+					return k
+				}
 				return "hash()"
+			}
+		}
+		// a hash function applied to the key
+		if len(call.Args) == 1 {
+			a := ast.Unparen(call.Args[0])
+			isKey := c.isParam(a)
+			if s, ok := a.(*ast.SelectorExpr); ok && strings.ToLower(s.Sel.Name) == "key" {
+				isKey = true
+			}
+			if isKey {
+				return "fn:" + c.norm(call.Fun)
 			}
 		}
 		return "call:" + c.norm(call.Fun)
@@ -885,6 +931,80 @@ func hashExprKind(c *hmapClassifier, e ast.Expr) string {
 		}
 	}
 	return "other:" + c.norm(e)
+}
+
+// linkKind classifies a callee by what it does to the order list, whatever it is called and whether it
+// is a method or a package function: "chain" (three entry pointers; the last one's link_prev/link_next
+// are set from the first two) or "unchain" (one entry pointer; its neighbours are joined).
+func (c *hmapClassifier) linkKind(id *ast.Ident) string {
+	fn, _ := c.info.Uses[id].(*types.Func)
+	if fn == nil || c.p == nil {
+		return ""
+	}
+	lfi := c.p.FuncOf(fn)
+	if lfi == nil || lfi.Decl.Body == nil || lfi.Pkg != c.fi.Pkg {
+		return ""
+	}
+	var params []string
+	for _, f := range lfi.Decl.Type.Params.List {
+		for _, nm := range f.Names {
+			if _, isPtr := lfi.Pkg.TypesInfo.TypeOf(f.Type).(*types.Pointer); isPtr {
+				params = append(params, nm.Name)
+			}
+		}
+	}
+	setsOwn, joins := 0, 0
+	ast.Inspect(lfi.Decl.Body, func(n ast.Node) bool {
+		as, ok := n.(*ast.AssignStmt)
+		if !ok || len(as.Lhs) != 1 || len(as.Rhs) != 1 {
+			return true
+		}
+		l := stripSpaces(types.ExprString(as.Lhs[0]))
+		rr := stripSpaces(types.ExprString(as.Rhs[0]))
+		if len(params) == 3 {
+			e := params[2]
+			if (l == e+".link_prev" && rr == params[0]) || (l == e+".link_next" && rr == params[1]) {
+				setsOwn++
+			}
+		}
+		if len(params) == 1 {
+			e := params[0]
+			if (l == e+".link_prev.link_next" && rr == e+".link_next") || (l == e+".link_next.link_prev" && rr == e+".link_prev") {
+				joins++
+			}
+		}
+		return true
+	})
+	switch {
+	case len(params) == 3 && setsOwn == 2:
+		return "chain"
+	case len(params) == 1 && joins == 2:
+		return "unchain"
+	}
+	return ""
+}
+
+// hashHelperKind: the kind of the expression returned by the type's hash(key) method.
+func (c *hmapClassifier) hashHelperKind(sel *ast.Ident) string {
+	fn, _ := c.info.Uses[sel].(*types.Func)
+	if fn == nil || c.p == nil {
+		return ""
+	}
+	hfi := c.p.FuncOf(fn)
+	if hfi == nil || hfi.Decl.Body == nil || len(hfi.Decl.Body.List) != 1 {
+		return ""
+	}
+	rs, ok := hfi.Decl.Body.List[0].(*ast.ReturnStmt)
+	if !ok || len(rs.Results) != 1 {
+		return ""
+	}
+	hc := newHmapClassifier(hfi)
+	hc.p = c.p
+	k := hashExprKind(hc, rs.Results[0])
+	if strings.HasPrefix(k, "fn:") || strings.HasPrefix(k, "inline:") {
+		return k
+	}
+	return ""
 }
 
 // checkRehash: structure of rehash() and agreement of the hash used for re-bucketing with lookups.
@@ -957,7 +1077,7 @@ func (h *hmapType) checkRehash() {
 		lk = append(lk, k)
 	}
 	sort.Strings(lk)
-	if len(lk) != 1 || !(lk[0] == "hash()" || strings.HasPrefix(lk[0], "inline:")) {
+	if len(lk) != 1 || !(lk[0] == "hash()" || strings.HasPrefix(lk[0], "inline:") || strings.HasPrefix(lk[0], "fn:")) {
 		probs = append(probs, fmt.Sprintf("lookups do not all derive the bucket from one hash of the key: %v", lk))
 	}
 	if len(idxKinds) == 1 {
@@ -1002,7 +1122,7 @@ func (h *hmapType) cachedHashStored() string {
 				if kv, ok := el.(*ast.KeyValueExpr); ok {
 					k := strings.ToLower(types.ExprString(kv.Key))
 					if k == "keyhash" || k == "hash" {
-						if hashExprKind(cl, kv.Value) == "hash()" {
+						if k := hashExprKind(cl, kv.Value); k == "hash()" || strings.HasPrefix(k, "fn:") || strings.HasPrefix(k, "inline:") {
 							okHash = true
 						}
 					}
